@@ -98,6 +98,9 @@ def run(check, prog):
     clause_B2(check, prog, canon)
     clause_C(check, prog)
     clause_D(check, prog, canon)
+    # "preserves pixel coordinates and metadata": the final copy_metadata
+    from . import c01
+    c01.f6_copy_metadata(check, prog)
 
 
 def configs(prog, fname, isarray):
